@@ -193,8 +193,23 @@ def run_variants(variants, src_root=None, jobs=16, only=None):
     src_root = str(src_root or os.environ.get('MPSA_REPO') or '/repo')
     if len(variants) <= 1 or jobs <= 1:
         return [_eval((v.vid, src_root, only)) for v in variants]
-    with ProcessPoolExecutor(max_workers=min(jobs, len(variants))) as ex:
-        return list(ex.map(_eval, [(v.vid, src_root, only) for v in variants]))
+    # safety net: a variant that does not come back (a regular expression that backtracks for ever on an edited tree) must
+    # not hang the check -- after the budget the workers are killed and the run is reported as broken, not as a pass
+    import concurrent.futures as _cf
+
+    budget = int(os.environ.get('MPSA_SELFTEST_BUDGET_S') or 2400)
+    ex = ProcessPoolExecutor(max_workers=min(jobs, len(variants)))
+    try:
+        return list(ex.map(_eval, [(v.vid, src_root, only) for v in variants], timeout=budget))
+    except _cf.TimeoutError:
+        for p_ in list(getattr(ex, '_processes', {}).values()):
+            try:
+                p_.kill()
+            except Exception:  # noqa: BLE001
+                pass
+        raise AnalysisError(f'self-test did not finish within {budget} s: a variant hangs (run the variants one per process to find it)') from None
+    finally:
+        ex.shutdown(wait=False, cancel_futures=True)
 
 
 def consulted_modules(prop: str) -> set:
